@@ -145,6 +145,43 @@ def history_check(p, name, c):
         p.violation(f"into_bench-history:{probs[0].split(' ')[0].split(':')[0]}", f"second conversion after re-adding {t.name} gate {g!r}: {probs[:2]} ({circ.describe(orig)})", src)
 
 
+def history_replace_inputs(p, name, c):
+    """into_bench; replace_inputs; into_bench again: no constant may survive and the function is the cofactor."""
+    if len(c.inputs) < 2 or not c.outputs:
+        return
+    orig = rebuild(c)
+    fixed = orig.inputs[-1]
+    src = (REPLAY_PRELUDE + circ.circ_src(orig) + "\nimport itertools\n" + circ.circ_src(orig, "o") + f"\nfixed={fixed!r}\nbad=[]\n"
+           "try:\n    c.into_bench(); c.replace_inputs([fixed], []); c.into_bench()\n"
+           "    left={g.gate_type.name for g in c.gates.values()} & {'ALWAYS_TRUE','ALWAYS_FALSE','LT','GT','LEQ','GEQ','LNOT','RNOT','LIFF','RIFF'}\n"
+           "    if left: bad.append(('types remain', sorted(left)))\n    bad+=circ.wf_problems(c)\n"
+           "    if not bad:\n        for x in itertools.product((False,True), repeat=len(c.inputs)):\n"
+           "            a=dict(zip(c.inputs,x)); full=dict(a); full[fixed]=True\n"
+           "            if [ref_concrete(circ.netlist_of(o),full)[k] for k in o.outputs]!=[ref_concrete(circ.netlist_of(c),a)[k] for k in c.outputs]: bad.append(('cofactor',a)); break\n"
+           "except Exception as e:\n    bad.append((type(e).__name__, str(e)))\nprint(bad); sys.exit(1 if bad else 0)\n")
+    p.case(("c14-history-ri", circ.snapshot(orig)[:3]), sample=f"{name}: convert, fix input {fixed} to True, convert again" if len(p.samples) < 7 else None)
+    try:
+        c.into_bench()
+        c.replace_inputs([fixed], [])
+        c.into_bench()
+        probs = circ.wf_problems(c)
+        left = {q.gate_type.name for q in c.gates.values()} - ALLOWED
+        if left:
+            probs.append(f"types outside the bench basis remain after the second conversion: {sorted(left)}")
+        if not probs:
+            zs = {lab: z3.Bool(f"x{i}") for i, lab in enumerate(orig.inputs)}
+            sym = {lab: symeval.SymState(v, False) for lab, v in zs.items()}
+            oa = orig.evaluate_circuit(dict(sym))
+            ob = c.evaluate_circuit({k: v for k, v in sym.items() if k != fixed})
+            r, m = p.check([zs[fixed], z3.Or(*[symeval.states_differ(oa[a], ob[b]) for a, b in zip(orig.outputs, c.outputs)])], label="history-cofactor")
+            if r == "sat":
+                probs.append("function after convert/fix/convert is not the cofactor")
+    except Exception as e:  # noqa: BLE001
+        probs = [f"{type(e).__name__}: {e}"]
+    if probs:
+        p.violation(f"into_bench-history-replace_inputs:{probs[0].split(' ')[0].split(':')[0]}", f"{probs[:2]} ({circ.describe(orig)})", src)
+
+
 def lemma_circuits():
     out = []
     for t in circgen.BINARY_ONLY:
@@ -172,6 +209,7 @@ def unit(p, item, tier, seed):
         for name, c in lemma_circuits():
             check(p, name, c)
             history_check(p, name, rebuild(lemma_circuits_by_name(name)))
+            history_replace_inputs(p, name, rebuild(lemma_circuits_by_name(name)))
         for name, c in circgen.feature_circuits():
             check(p, "feature:" + name, c)
         # canary: a wrong rewrite (GT -> AND without the NOT) must be refuted by the same query
@@ -193,6 +231,8 @@ def unit(p, item, tier, seed):
             check(p, f"seeded[{s}:{i}]", c)
             if i % 3 == 0:
                 history_check(p, f"seeded[{s}:{i}]", c2)
+            if i % 3 == 1:
+                history_replace_inputs(p, f"seeded[{s}:{i}]", c2)
 
 
 def run(rep, tier, seed, only=None):
